@@ -18,15 +18,29 @@ package patternutil
 //@   props C13
 //@   safety
 //@   requires forall i int :: 0 <= i && i < len(regexps) ==> regexps[i] != nil
+// What "the value meets the expectation" means where a precondition is evaluated (C02, C04): the value is read line
+// by line; a value without any line — the empty text — meets an empty expectation.  (Everything else about the
+// matching — exact or substring comparison per line, `re:` patterns — is exercised on the real function by the
+// bounded stand-in dag.evalCondition.)
 //@ fn MatchPatternScanner(scanner, patterns, opts) (r)
-//@   props C13
+//@   props C13 C02 C04
 //@   safety
 //@   requires forall i int :: 0 <= i && i < len(opts) ==> opts[i] != nil
-//@   modifies heap(alloc)
+//@   modifies heap(alloc), ghost scan.pos
+//@   ensures [C02,C04 an_empty_value_meets_an_empty_expectation]
+//@        len(patterns) == 1 && patterns[0] == "" && old(scan.pos[scanner]) == 0 && line_count(scan.text[scanner]) == 0 ==> r
+//@   ensures [C02,C04 nothing_matches_without_a_pattern] len(patterns) == 0 ==> !r
+//@   ensures forall o *bufio.Scanner :: o != scanner ==> scan.pos[o] == old(scan.pos[o])
 //@   loop 1 invariant forall i int :: 0 <= i && i < len(regexps) ==> regexps[i] != nil
 //@   loop 1 invariant options != nil && options.logger != nil
+//@   loop 1 invariant scan.pos[scanner] == old(scan.pos[scanner])
+//@   loop 1 invariant idx == -1 ==> len(literalPatterns) == 0
+//@   loop 1 invariant idx >= 0 && !hasPrefix(patterns[0], "re:") ==> (len(literalPatterns) >= 1 && literalPatterns[0] == patterns[0])
+//@   loop 2 invariant forall k int :: 0 <= k && k <= idx ==> literalPatterns[k] != ""
+//@   loop 4 invariant forall o *bufio.Scanner :: o != scanner ==> scan.pos[o] == old(scan.pos[o])
 //@ fn MatchPattern(content, patterns, opts) (r)
-//@   props C13
+//@   props C13 C02 C04
 //@   safety
 //@   requires forall i int :: 0 <= i && i < len(opts) ==> opts[i] != nil
 //@   modifies heap(alloc)
+//@   ensures [C02,C04 an_empty_value_meets_an_empty_expectation] content == "" && len(patterns) == 1 && patterns[0] == "" ==> r
